@@ -96,7 +96,7 @@ impl<'a> Gen<'a> {
     fn fresh(&mut self, ty: Ty) -> u32 {
         let id = self.next_id;
         self.next_id += 1;
-        self.vars.push(VarInfo { id, ty, live: false, frozen: false, mutable_list: ty == Ty::List && self.rng.chance(1, 2) });
+        self.vars.push(VarInfo { id, ty, live: false, frozen: false, mutable_list: (ty == Ty::List || ty == Ty::Map) && self.rng.chance(1, 2) });
         id
     }
     fn set_live(&mut self, id: u32) {
@@ -624,6 +624,13 @@ impl<'a> Gen<'a> {
     fn rhs_for(&mut self, v: u32, ty: Ty, d: usize) -> Expr {
         let info = self.vars.iter().find(|x| x.id == v).cloned().unwrap();
         let in_loop = self.loop_depth > 0;
+        if info.mutable_list && info.ty == Ty::Map {
+            // only fresh maps (distinct keys, up to 6 entries)
+            self.spend(1);
+            let n = self.rng.below(7);
+            let keys = ["ka", "kb", "kc", "kd", "ke", "kf"];
+            return Expr::Map((0..n).map(|i| { let t = self.elem_ty(); (keys[i].to_string(), self.retained(t, d + 1)) }).collect());
+        }
         if info.mutable_list {
             // only fresh lists
             self.spend(1);
@@ -778,8 +785,20 @@ impl<'a> Gen<'a> {
                 if c.is_empty() {
                     self.assign_stmt(d)
                 } else {
-                    let v = c[self.rng.below(c.len())].id;
+                    let (v, vty) = {
+                        let x = &c[self.rng.below(c.len())];
+                        (x.id, x.ty)
+                    };
                     self.spend(1);
+                    if vty == Ty::Map {
+                        // `m[i] = (key, value)`: replace the entry at position i
+                        let i = self.expr(Ty::Small, d + 1);
+                        let key = *self.rng.pick(&["ka", "kb", "kc", "kd", "ke", "kf", "kx", "ky"]);
+                        let t = self.elem_ty();
+                        let val = self.retained(t, d + 1);
+                        let entry = if self.rng.chance(1, 12) { val } else { Expr::Tuple(vec![Expr::Lit(Lit::Str(key.to_string())), val]) };
+                        return Expr::IndexAssign(v, b(i), b(entry));
+                    }
                     let i = if self.rng.chance(1, 4) { self.range_expr(d + 1, true) } else { self.expr(Ty::Small, d + 1) };
                     if self.rng.chance(1, 3) {
                         // compound assignment to an element (pure index and operand: F-C01-4)
